@@ -281,6 +281,10 @@ type c18Case struct {
 	Pi    []float64 `json:"pi,omitempty"`
 	PiTag string    `json:"pitag,omitempty"` // readable name of a protein user-frequency vector
 	T     []float64 `json:"t"`
+	// Reinit: the model object is first initialised with other parameters (kappa 0.3 / 0.7, pi .4 .1 .3 .2;
+	// protein: uniform frequencies) and used once (a P(t) is computed) before it is initialised with the
+	// parameters of the case: the matrices must be those of the new parameters
+	Reinit bool `json:"reinit,omitempty"`
 }
 
 // c18TMin is the smallest positive normal double, a legal branch length t>=0.
@@ -467,6 +471,32 @@ func c18Tasks(tier string) []mc.Task {
 				par[5-d] = r[x%len(r)]
 			}
 			pending = append(pending, c18Case{Model: "gtr", Par: par, Pi: pi, T: T})
+		}
+	}
+	// re-initialised model objects: a model that has served once with other parameters, then re-initialised
+	start("reinit")
+	sk := []float64{0.5, 2, 10}
+	for _, k := range sk {
+		pending = append(pending, c18Case{Model: "k2p", Par: []float64{k}, T: T, Reinit: true})
+	}
+	for pi, piv := range pis {
+		if pi%6 != 0 {
+			continue
+		}
+		pending = append(pending, c18Case{Model: "f81", Pi: piv, T: T, Reinit: true})
+		for _, k := range sk {
+			pending = append(pending, c18Case{Model: "f84", Par: []float64{k}, Pi: piv, T: T, Reinit: true})
+			pending = append(pending, c18Case{Model: "tn93", Par: []float64{k, 1 / k}, Pi: piv, T: T, Reinit: true})
+		}
+		pending = append(pending, c18Case{Model: "gtr", Par: []float64{0.2, 1, 3, 1, 0.2, 3}, Pi: piv, T: T, Reinit: true})
+	}
+	for _, name := range c18ProtNames {
+		for i := range tags {
+			if ppis[i] != nil {
+				start("reinit")
+				pending = append(pending, c18Case{Model: name, Pi: ppis[i], PiTag: tags[i], T: T, Reinit: true})
+				break
+			}
 		}
 	}
 	flush()
@@ -769,6 +799,15 @@ func (k *c18Checker) note(clause string, d float64) {
 	}
 }
 
+// c18Use makes a model serve once (its decomposition is computed and a P(t) evaluated).
+func c18Use(m models.Model) {
+	if p, err := models.NewPij(m, 0.3); err == nil {
+		p.Pij(0, 1)
+		p.SetLength(1.5)
+		p.Pij(1, 0)
+	}
+}
+
 // build constructs and initialises the goalign model.
 func (k *c18Checker) build() bool {
 	cs := k.cs
@@ -781,22 +820,42 @@ func (k *c18Checker) build() bool {
 			k.m = m
 		case "k2p":
 			m := dna.NewK2PModel()
+			if cs.Reinit {
+				m.InitModel(0.3)
+				c18Use(m)
+			}
 			m.InitModel(cs.Par[0])
 			k.m = m
 		case "f81":
 			m := dna.NewF81Model()
+			if cs.Reinit {
+				m.InitModel(.4, .1, .3, .2)
+				c18Use(m)
+			}
 			err = m.InitModel(cs.Pi[0], cs.Pi[1], cs.Pi[2], cs.Pi[3])
 			k.m = m
 		case "f84":
 			m := dna.NewF84Model()
+			if cs.Reinit {
+				m.InitModel(0.3, .4, .1, .3, .2)
+				c18Use(m)
+			}
 			m.InitModel(cs.Par[0], cs.Pi[0], cs.Pi[1], cs.Pi[2], cs.Pi[3])
 			k.m = m
 		case "tn93":
 			m := dna.NewTN93Model()
+			if cs.Reinit {
+				m.InitModel(0.3, 0.7, .4, .1, .3, .2)
+				c18Use(m)
+			}
 			err = m.InitModel(cs.Par[0], cs.Par[1], cs.Pi[0], cs.Pi[1], cs.Pi[2], cs.Pi[3])
 			k.m = m
 		case "gtr":
 			m := dna.NewGTRModel()
+			if cs.Reinit {
+				m.InitModel(0.3, 0.7, 1.5, 0.4, 2, 1, .4, .1, .3, .2)
+				c18Use(m)
+			}
 			err = m.InitModel(cs.Par[0], cs.Par[1], cs.Par[2], cs.Par[3], cs.Par[4], cs.Par[5], cs.Pi[0], cs.Pi[1], cs.Pi[2], cs.Pi[3])
 			k.m = m
 		default:
@@ -807,6 +866,16 @@ func (k *c18Checker) build() bool {
 			var user []float64
 			if cs.Pi != nil {
 				user = append([]float64{}, cs.Pi...)
+			}
+			if cs.Reinit {
+				// note: goalign documents InitModel as callable once per ProtModel object for the rate
+				// matrix (a second call multiplies by the frequencies again), so the protein re-use goes
+				// through a fresh object and only checks that earlier use of ANOTHER object does not leak
+				if m0, e0 := protein.NewProtModel(c18IsProt(cs.Model), false, 0); e0 == nil {
+					if m0.InitModel(nil) == nil {
+						c18Use(m0)
+					}
+				}
 			}
 			if err = m.InitModel(user); err != nil {
 				return
@@ -1106,10 +1175,14 @@ func c18Check(c *mc.Ctx, cs c18Case) {
 		c.Fatal("case without branch lengths: %s", jsonStr(cs))
 		return
 	}
-	k := &c18Checker{c: c, cs: cs, o: o, label: cs.Model, family: "dna-eigen",
+	label := cs.Model
+	if cs.Reinit {
+		label += "+reinitialised"
+	}
+	k := &c18Checker{c: c, cs: cs, o: o, label: label, family: "dna-eigen",
 		raised: map[string]bool{}, implC: map[float64]c18M{}, oraC: map[float64]c18M{}, litC: map[float64]c18M{}, maxDev: map[string]float64{}}
 	if o.n == 20 {
-		k.label, k.family = "protein-"+cs.Model, "protein"
+		k.label, k.family = "protein-"+label, "protein"
 		if cs.Pi == nil {
 			c.Flag("protein-model-frequencies")
 		} else {
